@@ -124,7 +124,7 @@ def _build_shared_index():
                   and type(v).__module__.startswith("html5lib") and id(v) not in const_ids):
                 shared_instances.add(id(v))
             if isinstance(v, type) and v.__module__ == mname:
-                attrs = {a for a, av in vars(v).items() if isinstance(av, _MUTABLE) and not a.startswith("__")}
+                attrs = {a for a, av in vars(v).items() if _stateful(av) and not a.startswith("__")}
                 if attrs:
                     class_mutables[v.__qualname__] = attrs
                 # objects that are class attributes are shared by every instance in every thread
@@ -216,15 +216,24 @@ def _stores_attr_on_shared(code):
     return False
 
 
+def _stateful(av):
+    """A class-level value that may carry state between calls: a container, or any object that is neither a scalar nor code
+    (an io.StringIO used as a scratch buffer, an itertools.count, an array, a regex scanner, a partial ...)."""
+    if isinstance(av, _MUTABLE):
+        return True
+    return not isinstance(av, _IMMUTABLE_GLOBALS + (types.MemberDescriptorType, types.GetSetDescriptorType, types.WrapperDescriptorType,
+                                                    types.MethodDescriptorType, types.ClassMethodDescriptorType))
+
+
 def _type_mutable_names(t):
-    """Names of class-level mutable containers visible on instances of t (whole MRO)."""
+    """Names of class-level state (containers and other stateful objects) visible on instances of t (whole MRO)."""
     tm = _shared["type_mutables"]
     names = tm.get(t)
     if names is None:
         names = set()
         for k in t.__mro__:
             if getattr(k, "__module__", "").startswith("html5lib"):
-                names |= {a for a, av in vars(k).items() if isinstance(av, _MUTABLE) and not a.startswith("__")}
+                names |= {a for a, av in vars(k).items() if _stateful(av) and not a.startswith("__")}
         tm[t] = names
     return names
 
@@ -724,10 +733,17 @@ def gen_case(rng):
     if rng.random() < 0.1:
         # the SAME kind of operation with DIFFERENT arguments in every thread, several times: whatever remembers "the last
         # one used" (an encoder, a label, a factory, an option set) is fought over
-        kind = rng.choice(["serialize", "serialize", "serialize", "parse_bytes", "builder", "pipeline"])
+        kind = rng.choice(["serialize", "serialize", "serialize", "parse_bytes", "builder", "pipeline", "sanitize", "sanitize"])
+        styled = ["<p style='color: red; width: 10px; height: 20px'>s\xe9</p>", "<b style='font-weight: bold; margin: 1px 2px; text-align: left'>t</b>",
+                  "<a href='http://x.example/?a=1&amp;b=2' style='color: blue; font-size: 12px; border: 1px solid'>u</a>",
+                  "<div style='background-color: #fff; padding: 2px 3px; float: left'><i style='color: green; line-height: 2'>w</i></div>",
+                  "<svg><a xlink:href='#f' style='fill: red; stroke: blue'>v</a></svg>", "<span style='display: none; color: expression(x)'>x</span>"]
         encs = ["utf-8", "ascii", "iso-8859-1", "koi8-r", "shift_jis", "utf-16le", "windows-1252", "euc-kr", "iso-8859-2"]
         rng.shuffle(encs)
-        texts = ["caf\xe9", "\u20ac5", "\u0416\u0438", "\u4e2d\u6587", "<p title='\xfc'>", "\U0001f600", "na\xefve \u2014 x"]
+        texts = ["caf\xe9", "\u20ac5", "\u0416\u0438", "\u4e2d\u6587", "<p title='\xfc'>", "\U0001f600", "na\xefve \u2014 x",
+                 # what the sanitizer works on: style attributes with several accepted declarations, URLs, SVG
+                 "<p style='color: red; width: 10px; height: 20px'>s\xe9</p>", "<b style='font-weight: bold; margin: 1px 2px; text-align: left'>t</b>",
+                 "<a href='http://x.example/?a=1&amp;b=2' style='color: blue; font-size: 12px'>u</a>", "<svg><a xlink:href='#f' style='fill: red'>v</a></svg>"]
         for t in range(n_threads):
             ops = []
             for _ in range(rng.randint(3, 6)):
@@ -737,6 +753,15 @@ def gen_case(rng):
                 elif kind == "parse_bytes":
                     hexdoc, args = c12.BYTE_DOCS[(t * 3 + len(ops)) % len(c12.BYTE_DOCS)]
                     ops.append({"op": "api_parse_bytes", "hex": hexdoc.hex(), "args": dict(args), "builder": rng.choice(["etree", "dom"])})
+                elif kind == "sanitize":
+                    doc = [styled[(t + len(ops)) % len(styled)], rng.choice(styled)]
+                    if rng.random() < 0.5:
+                        ops.append({"op": "pipeline", "doc": doc, "builder": rng.choice(["etree", "dom"]),
+                                    "filters": ["sanitizer"] + rng.sample(["whitespace", "alphabeticalattributes", "optionaltags"], rng.randint(0, 1)),
+                                    "sink": rng.choice(c12.PIPE_SINKS)})
+                    else:
+                        ops.append({"op": "api_serialize", "doc": doc, "builder": rng.choice(["etree", "dom"]),
+                                    "opts": {"sanitize": True, "omit_optional_tags": rng.random() < 0.5}, "encoding": rng.choice([None, "utf-8", "ascii"])})
                 elif kind == "builder":
                     b = ["etree", "etree_full", "dom"][t % 3]
                     ops.append(rng.choice([{"op": "get_builder", "builder": b},
